@@ -114,6 +114,42 @@ pub fn run(ctx: &Ctx) -> Report {
             acc
         })
         .reduce(Acc::default, |a, b| a.merge(b));
+    // many attributes: n = 1..=400 distinct unsupported comprehension-required types (the response
+    // lists them all and must still parse back), n repeats of one type, n comprehension-optional
+    // types (no error), and a mix; under no / all universe types supported
+    let mut many: Vec<Case> = Vec::new();
+    for n in 1..=400usize {
+        for shape in 0..4u8 {
+            let mut b = wire::encode_header(0, 1, tid, 0);
+            for i in 0..n {
+                let t: u16 = match shape {
+                    0 => 0x0100 + i as u16,
+                    1 => 0x0100,
+                    2 => 0x8100 + i as u16,
+                    _ => if i % 2 == 0 { 0x0100 + i as u16 } else { 0x8100 + i as u16 },
+                };
+                wire::append_raw(&mut b, t, &[]);
+            }
+            if n % 50 == 0 {
+                wire::append_fp(&mut b);
+            }
+            for sup in [0i64, all_mask] {
+                many.push(Case::new("police", b.clone()).args(&[sup, 0]));
+            }
+        }
+    }
+    let acc_many = crate::props::sweep(many.into_par_iter(), judge);
+    // the response constructors called directly: unknown_attributes(request, list) for lists of
+    // 0..=400 types (distinct, repeated, optional types included) and bad_request(request)
+    let mut direct: Vec<Case> = Vec::new();
+    for method in [0i64, 1, 0xFFF] {
+        for n in (0..=400i64).chain([1000]) {
+            for shape in 0..3i64 {
+                direct.push(Case::new("direct", vec![]).args(&[method, n, shape]));
+            }
+        }
+    }
+    let acc_direct = crate::props::sweep(direct.into_par_iter(), judge);
     // classification of all 65536 types
     let acc2 = (0..=0xFFFFu32)
         .into_par_iter()
@@ -122,11 +158,11 @@ pub fn run(ctx: &Ctx) -> Report {
             acc
         })
         .reduce(Acc::default, |a, b| a.merge(b));
-    let acc = acc1.merge(acc2);
+    let acc = acc1.merge(acc2).merge(acc_many).merge(acc_direct);
     Report {
         acc,
         exhaustive: true,
-        rule: "request messages whose attribute lists are all sequences (duplicates included) up to the depth over {SOFTWARE, USERNAME, PRIORITY, 0x7F00, 0xFF00, MESSAGE-INTEGRITY, MESSAGE-INTEGRITY-SHA256, FINGERPRINT} that the reference decoder accepts x methods {0,1,0xFFF}; type universe of 9 (those 8 + USE-CANDIDATE, never present); per message: supported = any subset of the present types + none/all of the absent ones, required = any subset of the present types + none/one/all of the absent ones; for messages of <= 2 attributes (method 1) all 2^9 x 2^9 supported x required subsets; every third configuration repeated with reversed lists whose entries are duplicated; comprehension_required for all 65536 types; distinct_nontrivial = request messages".into(),
+        rule: "request messages whose attribute lists are all sequences (duplicates included) up to the depth over {SOFTWARE, USERNAME, PRIORITY, 0x7F00, 0xFF00, MESSAGE-INTEGRITY, MESSAGE-INTEGRITY-SHA256, FINGERPRINT} that the reference decoder accepts x methods {0,1,0xFFF}; type universe of 9 (those 8 + USE-CANDIDATE, never present); per message: supported = any subset of the present types + none/all of the absent ones, required = any subset of the present types + none/one/all of the absent ones; for messages of <= 2 attributes (method 1) all 2^9 x 2^9 supported x required subsets; every third configuration repeated with reversed lists whose entries are duplicated; requests with n = 1..=400 unsupported comprehension-required attributes (distinct / one type repeated / optional / mixed); unknown_attributes(request, list) called directly with lists of 0..=400 and 1000 types (distinct / repeating / mixed) and bad_request(request), 3 methods; comprehension_required for all 65536 types; distinct_nontrivial = request messages".into(),
         bounds: json!({"messages": n_msgs, "depth": depth, "configurations_per_message": "<= 2^k * 2 * 2^k * 3 for k present universe types; 262144 for messages of <= 2 attributes"}),
         assumptions: vec!["UNKNOWN-ATTRIBUTES is compared modulo repeats (the statement does not say whether a type present twice is listed twice)".into()],
         ..Default::default()
@@ -232,6 +268,48 @@ pub fn judge(case: &Case, acc: &mut Acc) {
                         }
                     } else {
                         acc.outcome("400 bad request");
+                    }
+                }
+            }
+        }
+        "direct" => {
+            acc.validated += 1;
+            let (method, n, shape) = (case.args[0] as u16, case.args[1] as usize, case.args[2]);
+            let tid: u128 = 0x0D0E_0F10_1112_1314_1516_1718;
+            let mut rb = wire::encode_header(0, method, tid, 0);
+            wire::append_raw(&mut rb, 0x8022, b"client");
+            let Ok(req) = Message::from_bytes(&rb) else {
+                acc.outcome("skipped: not accepted (C02)");
+                return;
+            };
+            let list: Vec<u16> = (0..n).map(|i| match shape {
+                0 => 0x0100 + i as u16,
+                1 => 0x0100 + (i % 3) as u16,
+                _ => if i % 2 == 0 { 0x7F00 - i as u16 } else { 0x8100 + i as u16 },
+            }).collect();
+            let lt: Vec<AttributeType> = list.iter().map(|t| AttributeType::new(*t)).collect();
+            let mut outs = vec![(Message::unknown_attributes(&req, &lt).build(), 420u16, "unknown_attributes")];
+            if n == 0 {
+                outs.push((Message::bad_request(&req).build(), 400, "bad_request"));
+            }
+            for (bytes, code, name) in outs {
+                acc.outcome(if code == 420 { "direct 420 response" } else { "direct 400 response" });
+                let (Ok(rm), Ok(pm)) = (wire::decode(&bytes), Message::from_bytes(&bytes)) else {
+                    viol!(acc, P, "direct/response-does-not-parse", case, format!("the response built by {name} does not parse back"), "parses under both parsers", fmt_bytes(&bytes));
+                    continue;
+                };
+                let ptid: u128 = pm.transaction_id().into();
+                if rm.class != 3 || rm.method != method || rm.tid != tid || real::class_num(pm.class()) != 3 || pm.method() != method || ptid != tid {
+                    viol!(acc, P, "direct/response-header", case, format!("the response built by {name} does not carry class error and the request's method and transaction id"), format!("(3, {method:#x}, {tid:#x})"), format!("({}, {:#x}, {:#x})", rm.class, rm.method, rm.tid));
+                }
+                match real::msg_attribute(&pm, Kind::ErrorCode, 0) {
+                    Ok(crate::refimpl::attrs::Val::Error(c, _)) if c == code => {}
+                    other => viol!(acc, P, "direct/wrong-code", case, format!("the ERROR-CODE of the response built by {name} does not read back as {code}"), format!("{code}"), format!("{other:?}")),
+                }
+                if code == 420 {
+                    let on_wire: Vec<u16> = rm.attrs.iter().find(|a| a.typ == 0x000A).map(|a| a.value.chunks(2).filter(|c| c.len() == 2).map(|c| u16::from_be_bytes([c[0], c[1]])).collect()).unwrap_or_default();
+                    if dedup_keep_order(&on_wire) != dedup_keep_order(&list) {
+                        viol!(acc, P, "direct/unknown-attributes-list", case, "UNKNOWN-ATTRIBUTES of unknown_attributes(request, list) does not carry the list", format!("{:04x?}", dedup_keep_order(&list)), format!("{:04x?}", on_wire));
                     }
                 }
             }
